@@ -248,6 +248,8 @@ class Fn:
                 return text_lit(v), "str"
             if v is None:
                 return "()", "none"
+            if isinstance(v, bytes):
+                return "([" + ", ".join(str(b) for b in v) + "] : Bytes)", "bytes"
             raise Unsupported(f"constant {v!r}")
         if isinstance(e, ast.Name):
             if e.id in env:
@@ -466,6 +468,16 @@ class Fn:
                 pre.append(f"  : PyM {lean_type(bt2)}))")
                 return v, ("list", bt2)
             return f"(({lst}).map (fun ({lname(g.target.id)} : {lean_type(et)}) => {body}))", ("list", bt2)
+        if isinstance(e, ast.Subscript) and isinstance(e.value, ast.Call) and ast.unparse(e.value.func) in ("unpack", "struct.unpack") \
+                and len(e.value.args) == 2 and isinstance(e.value.args[0], ast.Constant) and e.value.args[0].value == "<I" \
+                and isinstance(e.slice, ast.Constant) and e.slice.value == 0:
+            # unpack("<I", b)[0]: the little-endian value of exactly four bytes (struct.error otherwise)
+            c, t = self.expr(e.value.args[1], env, pre)
+            if t != "bytes":
+                raise Unsupported("unpack('<I', x) of " + str(t))
+            v = self.fresh()
+            pre.append(f"let {v} ← PyT.unpackU32LE {c}")
+            return v, "int"
         if isinstance(e, ast.Subscript) and ast.unparse(e.value) in self.spec.get("tables", {}):
             # a class-level table of third-party objects (compiled regexes) looked up by key: the named Lean function
             lean_fn, kt, rett = self.spec["tables"][ast.unparse(e.value)]
@@ -601,7 +613,7 @@ class Fn:
             return f"(decide ({c} ≠ 0))"
         if t == "millis":
             return f"(decide ({c}.ms ≠ 0))"
-        if t == "str" or (isinstance(t, tuple) and t[0] == "list"):
+        if t in ("str", "bytes") or (isinstance(t, tuple) and t[0] == "list"):
             return f"(!({c}).isEmpty)"
         if isinstance(t, tuple) and t[0] == "opt":
             return f"({c}).isSome"
@@ -618,6 +630,8 @@ class Fn:
             return f"({a} ++ {b})", "str"
         if isinstance(at, tuple) and at[0] == "list" and at == bt and op is ast.Add:
             return f"({a} ++ {b})", at
+        if at == "bytes" and bt == "bytes" and op is ast.Add:
+            return f"({a} ++ {b})", "bytes"
         if at == "millis" and bt == "int" and op is ast.Mod:
             v = self.fresh()
             pre.append(f"let {v} ← PyT.Millis.mod {a} {b}")
@@ -688,6 +702,25 @@ class Fn:
                 v = self.fresh()
                 pre.append(f"let {v} ← PyT.ceilDivFloat {a} ({e.args[0].right.value} : Int)")
                 return v, "int"
+        if isinstance(f, ast.Attribute) and f.attr == "join" and isinstance(f.value, ast.Constant) and f.value.value == b"" \
+                and len(e.args) == 1:
+            c, t = self.expr(e.args[0], env, pre)
+            if t != ("list", "bytes"):
+                raise Unsupported("b''.join over " + str(t))
+            return f"(List.flatten {c})", "bytes"
+        if src == "struct.pack" and len(e.args) == 2 and isinstance(e.args[0], ast.Constant) and e.args[0].value == "<I":
+            # struct.pack("<I", n): four little-endian bytes; struct.error outside 0 .. 2^32 - 1
+            c, t = self.expr(e.args[1], env, pre)
+            if t != "int":
+                raise Unsupported("struct.pack('<I', x) of " + str(t))
+            v = self.fresh()
+            pre.append(f"let {v} ← PyT.packU32LE {c}")
+            return v, "bytes"
+        if src == "bytes" and len(e.args) == 1 and not e.keywords:
+            c, t = self.expr(e.args[0], env, pre)
+            if t != "bytes":
+                raise Unsupported("bytes() of " + str(t))
+            return c, "bytes"      # bytes(b) of a bytes / bytearray slice: the same bytes
         if isinstance(f, ast.Attribute) and f.attr == "join" and isinstance(f.value, ast.Constant) and len(e.args) == 1:
             c, t = self.expr(e.args[0], env, pre)
             if t != ("list", "str"):
@@ -1109,7 +1142,9 @@ class Fn:
         if self.top_level_ctl(s.body, (ast.Return, ast.Break, ast.Continue)):
             raise Unsupported("try body with return / break / continue that falls through elsewhere")
         changes_state = [v for v in self.assigned(s.body) if v in self.spec.get("state", ()) or v in env]
-        if changes_state and not all(self.terminal(h.body) for h in s.handlers):
+        atomic = len(s.body) == 1 and isinstance(s.body[0], ast.Assign) and not self.flow_effects(s.body[0])
+        # (one assignment: whatever raises is evaluated before the variable is rebound, so the handler sees the old value)
+        if changes_state and not atomic and not all(self.terminal(h.body) for h in s.handlers):
             raise Unsupported("try body that rebinds " + ", ".join(changes_state) + " with a handler that falls through")
         benv: dict = {}
         bvars: list[str] = []
@@ -1794,6 +1829,21 @@ class Fn:
                 if not law(importlib.import_module(self.spec["module"])):
                     raise Unsupported("the law an extern of this entry rests on no longer holds: " + what)
             fdef = self.find_dispatch(fdef)
+        if self.spec.get("generator"):
+            # a generator consumed as a whole (b"".join(gen(…))): `yield v` appends v to the list of what was yielded, which is
+            # the result (an exception ends it, as it ends the consumer)
+            class Y(ast.NodeTransformer):
+                def visit_Expr(self, node):
+                    if isinstance(node.value, ast.Yield) and node.value.value is not None:
+                        return ast.Assign(targets=[ast.Name(id="yielded_", ctx=ast.Store())],
+                                          value=ast.BinOp(left=ast.Name(id="yielded_", ctx=ast.Load()), op=ast.Add(),
+                                                          right=ast.List(elts=[node.value.value], ctx=ast.Load())))
+                    return self.generic_visit(node)
+            fdef = Y().visit(fdef)
+            if any(isinstance(n, (ast.Yield, ast.YieldFrom, ast.Return)) for n in ast.walk(fdef)):
+                raise Unsupported("generator with yield as an expression / yield from / return")
+            fdef.body = list(fdef.body) + [ast.Return(value=ast.Name(id="yielded_", ctx=ast.Load()))]
+            ast.fix_missing_locations(fdef)
         fdef = self.desugar_state(fdef)
         if self.spec.get("token_class") and self.spec.get("state_attrs"):
             # whatever the method changes in `self` must be among the state variables it returns
@@ -2107,6 +2157,33 @@ TARGETS = [
                "number_format.duration_unit_smallest": ("fmt_smallest", "int")},
      "assume": "cell_value is the double nearest to a whole number of milliseconds / 1000 (PyT.Millis: comparisons with ints, "
                "math.floor(x) != x and x % int are exact on such doubles)"},
+    # ---- C05: chunk framing of iwafile.py ----------------------------------------------------------------------------------
+    {"group": "Iwa", "module": "numbers_parser.iwafile", "qualname": "is_iwa_file", "lean": "is_iwa_file",
+     "params": [("data", "bytes")], "ret": "bool", "fuel": ["data.length + 1"],
+     "assume": "unpack('<I', b)[0] is the little-endian value of exactly four bytes (struct.error otherwise); the while loop runs "
+               "on fuel len(data) + 1 (every iteration removes at least four bytes: is_iwa_file_eq_model)"},
+    {"group": "Iwa", "module": "numbers_parser.iwafile", "qualname": "get_archive_info_and_remainder",
+     "lean": "get_archive_info_and_remainder", "typevars": ["H"],
+     "params": [("parseInfo", ("raw", "Bytes → PyM H")), ("buf", "bytes")], "ret": ("tuple", [("var", "H"), "bytes"]),
+     "externs": {"_DecodeVarint32": ("Iwa.varintDec32Int", ["bytes", "int"], ("tuple", ["int", "int"]), True),
+                 "ArchiveInfo.FromString": ("parseInfo", ["bytes"], ("var", "H"), True)},
+     "assume": "_DecodeVarint32 (google.protobuf, pure Python) is the hand model Iwa.varintDec32 (compared with the real one on "
+               "every run); ArchiveInfo.FromString is the parameter parseInfo"},
+    {"group": "Iwa", "module": "numbers_parser.iwafile", "qualname": "IWACompressedChunk._decompress_all", "lean": "decompress_all",
+     "find": lambda module: find_generator(module, "IWACompressedChunk"),
+     "params": [("uncompress", ("raw", "Bytes → PyM Bytes")), ("data", "bytes")], "ret": ("list", "bytes"),
+     "generator": True, "flow": True, "init": [("yielded_", ("list", "bytes"), "[]")], "fuel": ["data.length + 1"],
+     "externs": {"snappy.uncompress": ("uncompress", ["bytes"], "bytes", True)},
+     "assume": "the generator is consumed as a whole (b''.join(…)): the result is the list of what it yields; snappy.uncompress "
+               "is the parameter uncompress (any result, any exception); `except Exception` catches every PyExc; the while loop "
+               "runs on fuel len(data) + 1; the method is found by name or, after a renaming, as the one generator of the class"},
+    {"group": "Iwa", "module": "numbers_parser.iwafile", "qualname": "IWACompressedChunk.to_buffer", "lean": "chunk_to_buffer",
+     "params": [("compress", ("raw", "Bytes → Bytes")), ("uncompressed", "bytes")], "ret": "bytes",
+     "skip": ["uncompressed = b''.join([archive.to_buffer() for archive in self.archives])"],
+     "init": [("payloads", ("list", "bytes"), "[]")], "state_attrs": {"payloads": "payloads"},
+     "externs": {"snappy.compress": ("compress", ["bytes"], "bytes", False)}, "fuel": ["uncompressed.length + 1"],
+     "assume": "translated from the joined archive bytes on (the parameter uncompressed); snappy.compress is the parameter "
+               "compress; struct.pack('<I', n) is four little-endian bytes (struct.error outside 0 .. 2^32 - 1)"},
     # ---- C17: the exception flow of container loading (iwork.py, ObjectStore.__init__) ----------------------------------
     {"group": "Load", "module": "numbers_parser.iwork", "qualname": "IWork._open_zipfile", "lean": "open_zipfile", "flow": True,
      "params": [("filepath", L_ZIPSRC)], "pyparams": ["filepath"], "ret": L_NAT,
@@ -2203,6 +2280,18 @@ TARGETS = [
 ]
 
 
+def find_generator(module: str, klass: str) -> ast.FunctionDef:
+    """the one method of the class that is a generator (IWACompressedChunk._decompress_all under any name)"""
+    import importlib
+    mod = importlib.import_module(module)
+    tree = ast.parse(Path(inspect.getsourcefile(mod)).read_text())
+    gens = [m for c in tree.body if isinstance(c, ast.ClassDef) and c.name == klass for m in c.body
+            if isinstance(m, ast.FunctionDef) and any(isinstance(n, ast.Yield) for n in ast.walk(m))]
+    if len(gens) != 1:
+        raise Unsupported(f"{klass} does not have exactly one generator method")
+    return gens[0]
+
+
 def find_def(module: str, qualname: str) -> ast.FunctionDef:
     import importlib
     mod = importlib.import_module(module)
@@ -2221,7 +2310,7 @@ def find_def(module: str, qualname: str) -> ast.FunctionDef:
 
 
 GROUP_IMPORTS = {"A1": ["NumbersModel.Model.A1"], "Items": [], "NumFmt": [], "Addr": [], "DateFmt": [], "Duration": [], "Dec128": [], "Merge": [], "Edit": [], "Cache": [], "Tok": ["NumbersModel.Model.TokenizerSrc"],
-                 "Load": ["NumbersModel.Model.LoaderSrc"]}
+                 "Load": ["NumbersModel.Model.LoaderSrc"], "Iwa": ["NumbersModel.Model.IwaSrc"]}
 
 
 def generate(group: str) -> tuple[str, dict]:
@@ -2236,7 +2325,12 @@ def generate(group: str) -> tuple[str, dict]:
     status = {}
     for spec in targets:
         try:
-            fdef = find_def(spec["module"], spec["qualname"])
+            try:
+                fdef = find_def(spec["module"], spec["qualname"])
+            except Unsupported:
+                if "find" not in spec:
+                    raise
+                fdef = spec["find"](spec["module"])      # the function under another name (a harmless renaming)
             code = Fn(spec, registry).translate(fdef)
             src = ast.unparse(fdef)
             doc = ast.get_docstring(fdef)
